@@ -368,6 +368,8 @@ func dischargeAll(frs []*FuncResult, toSec int, par int, wantAll bool) {
 	}{{3, 3, 7}, {6, 3, 31}}
 	if os.Getenv("GOVC_NORETRY") != "" {
 		rounds = nil // development runs: report the first answer
+	} else if os.Getenv("GOVC_ROUNDS") == "1" {
+		rounds = rounds[:1] // evaluation of seeded changes: one retry round is enough to tell a slow search from a failure
 	}
 	for ri, rd := range rounds {
 		if len(retry) == 0 || len(retry) > 40 || (ri == 1 && len(retry) > 9) {
